@@ -66,9 +66,14 @@ META.update({
          "level_text": "Exploration: hundreds of thousands (quick) to 10^8 (thorough) wrapper calls with boundary-biased prior register contents and arguments, each judged on the exact trapped instruction sequence and the emulated register afterwards.",
          "level_note": TRAP_NOTE},
 })
+META.update({
+ "C19": {"engine": "vx-pure", "design_ref": "DESIGN.md §6 C19", "technique": "table-driven monitor (manual-transcribed constants vs runtime values), real CPU as second oracle for RFLAGS/MXCSR bits, exhaustive codec enumeration",
+         "level_text": "Exploration that is exhaustive over its finite domain: every public constant (~236) is compared with a manual-derived table, user-mode-observable bits are cross-checked against the real CPU, and every small codec is enumerated over its whole input type.",
+         "level_note": PURE_NOTE},
+})
 NOT_APPLICABLE = {}
 ENGINES = [
- {"name": "vx-pure", "path": "harness/src/props/c03.rs..c08.rs, harness/src/gen.rs", "serves_properties": ["C03", "C04", "C05", "C06", "C07", "C08", "C15"],
+ {"name": "vx-pure", "path": "harness/src/props/c03.rs..c08.rs, harness/src/gen.rs", "serves_properties": ["C03", "C04", "C05", "C06", "C07", "C08", "C15", "C19"],
   "kind_free_text": "boundary-biased generators + independent arithmetic oracles judging every call of the real crate functions, in overflow-checking and non-checking builds"},
 ]
 ENGINES.append({"name": "vx-paging", "path": "harness/src/props/paging.rs, harness/src/{simphys,hwwalk,refmodel}.rs", "serves_properties": ["C01", "C02", "C09", "C10"],
